@@ -36,8 +36,8 @@ where
 }
 
 /// Applies a uniform crossover to two parents using the `mask` to decide which elements to swap.
-#[contracts::requires(mask.len() >= parent1.len())]
-#[contracts::requires(mask.len() >= parent2.len())]
+#[contracts::requires(mask.len() <= parent1.len())]
+#[contracts::requires(mask.len() <= parent2.len())]
 pub fn uniform_crossover<D>(parent1: &[D], parent2: &[D], mask: &[bool]) -> [Vec<D>; 2]
 where
     D: Clone,
